@@ -505,7 +505,8 @@ func (prog Progress) walkTransforming(n datamodel.Node, s selector.Selector, fn 
 
 func contains(interest []datamodel.PathSegment, candidate datamodel.PathSegment) bool {
 	for _, i := range interest {
-		if i == candidate {
+		// the same segment may be held in string or in int form (a field selector over a list, say)
+		if i.Equals(candidate) {
 			return true
 		}
 	}
